@@ -710,7 +710,13 @@ fn bg_mode(inputs: &[Value], si: usize, sn: usize, out: &mut TraceOut, pend: &Pe
                 p => panic!("pattern {p}"),
             }
             let crossed_at = now_ms();
-            ev["can_merge"] = json!(h.verif_can_merge());
+            // is a trigger exceeded?  Decided here from the dumped per-file statistics and the configured
+            // triggers (fragmentation 0.5, dead bytes 300), not by asking the code under test
+            let crossed = h.verif_dump().stats.iter().any(|&(_, live, dead, dbytes)| {
+                dbytes > 300 || (live + dead > 0 && (dead as f64) / ((live + dead) as f64) > 0.5)
+            });
+            ev["can_merge"] = json!(crossed);
+            ev["can_merge_says"] = json!(h.verif_can_merge());
             // observe for `observe_intervals` full intervals (plus jitter)
             let window = Duration::from_millis(((interval as f64) * (1.0 + jitter) * observe_intervals as f64) as u64 + 150);
             std::thread::sleep(window);
@@ -1006,7 +1012,9 @@ fn conc_mode(inputs: &[Value], seed: u64, si: usize, sn: usize, out: &mut TraceO
                                     // values are unique per writer; every third one is larger than the write buffer
                                     let big = rng.below(3) == 0;
                                     let (vname, bytes) = if big {
-                                        let n = 8200 + (t * 100 + o) % 900;
+                                        // a band around the write buffer: entries just over it whose value is
+                                        // still below it (8164..8191 with these keys), and larger ones
+                                        let n = 8150 + (t * 100 + o * 37) % 1000;
                                         (format!("big:{n}:{}", (b'a' + t as u8) as char), vec![b'a' + t as u8; n])
                                     } else {
                                         let s = format!("t{t}w{w}o{o}");
